@@ -422,10 +422,14 @@ func (r *runner) render(op Op) (string, error) {
 		if op.Lay < 0 || op.Lay >= len(layouts) || m.Poisoned[op.Name] {
 			return bad("type")
 		}
+		if op.Init == "alias" {
+			// alias declaration: the name denotes the layout type itself (no methods can be declared on it)
+			return fmt.Sprintf("type %s = %s", op.Name, layouts[op.Lay].Src), nil
+		}
 		return fmt.Sprintf("type %s %s", op.Name, layouts[op.Lay].Src), nil
 	case "method":
 		inc := m.Types[op.Ref]
-		if inc == nil || m.Poisoned[op.Ref] {
+		if inc == nil || m.Poisoned[op.Ref] || inc.Alias {
 			return bad("receiver")
 		}
 		body := strconv.Itoa(op.Seed)
@@ -574,7 +578,10 @@ func (r *runner) apply(op Op) {
 		m.Names[op.Name] = &binding{Class: "func", Fn: fn, Chain: chain}
 	case "type":
 		old := m.Types[op.Name]
-		inc := &incarnation{ID: len(m.AllIncs), Name: op.Name, Lay: op.Lay, Methods: map[string]*method{}}
+		inc := &incarnation{ID: len(m.AllIncs), Name: op.Name, Lay: op.Lay, Methods: map[string]*method{}, Alias: op.Init == "alias"}
+		if inc.Alias {
+			rec.Label("decl:type-alias")
+		}
 		m.AllIncs = append(m.AllIncs, inc)
 		m.Types[op.Name] = inc
 		if old != nil {
@@ -1109,12 +1116,23 @@ func (g *gen) validOp() Op {
 		case k < 62:
 			n := g.pick("tname", typePool)
 			if !m.Poisoned[n] {
-				return Op{K: "type", Name: n, Lay: uni(g.t, "lay", len(layouts))}
+				op := Op{K: "type", Name: n, Lay: uni(g.t, "lay", len(layouts))}
+				// at most one alias declaration per history, of a struct layout: the model keeps one
+				// identity per declaration, while two aliases of one layout (or an alias of int) denote
+				// one and the same type
+				hasAlias := false
+				for _, inc := range m.AllIncs {
+					hasAlias = hasAlias || inc.Alias
+				}
+				if !hasAlias && layouts[op.Lay].Fields != nil && uni(g.t, "alias", 3) == 0 {
+					op.Init = "alias"
+				}
+				return op
 			}
 		case k < 70:
 			var l []string
 			for _, n := range m.sortedTypes() {
-				if !m.Poisoned[n] && layouts[m.Types[n].Lay].Fields != nil {
+				if !m.Poisoned[n] && layouts[m.Types[n].Lay].Fields != nil && !m.Types[n].Alias {
 					l = append(l, n)
 				}
 			}
